@@ -393,7 +393,13 @@ class DataArray:
 
     def _red(self, name, dim=None, **kw):
         if dim is not None:
-            raise sc.ShimMissing("DataArray.%s(dim=...)" % name)
+            dims_red = [dim] if isinstance(dim, str) else list(dim)
+            data = self.values
+            keep = [d for d in self.dims if d not in dims_red]
+            for d in dims_red:
+                cur = [x for x in self.dims if x not in dims_red[:dims_red.index(d)]]
+                data = getattr(symnp, name)(data, axis=cur.index(d))
+            return self._replace(symnp.asarray(data), dims=tuple(keep))
         v = getattr(symnp, name)(self.values)
         out = DataArray(symnp.asarray(v))
         return out
@@ -405,6 +411,95 @@ class DataArray:
 
     def isnull(self):
         return self._replace(symnp.isnan(self.values))
+
+    # ---- a wider slice of the DataArray surface (unused by the pinned source; keeps a changed source executable)
+    def notnull(self):
+        return self._replace(~symnp.isnan(self.values))
+
+    def fillna(self, value):
+        v = value.data if isinstance(value, DataArray) else value
+        return self._replace(symnp.where(symnp.isnan(self.values), v, self.values))
+
+    def clip(self, min=None, max=None, **kw):
+        return self._replace(self._data.clip(min, max) if not _is_dask(self._data) else self._data._lazy(lambda w: w.clip(min, max)))
+
+    def round(self, decimals=0):
+        return self._replace(symnp.round(self.values, decimals))
+
+    def __abs__(self):
+        return self._replace(abs(self._data))
+
+    def __pow__(self, p):
+        return self._replace(self._data ** p)
+
+    def __and__(self, o): return self._bin(o, lambda a, b: a & b)
+    def __or__(self, o): return self._bin(o, lambda a, b: a | b)
+    def __invert__(self): return self._replace(~self._data)
+
+    def to_numpy(self):
+        return self.values
+
+    def load(self):
+        if _is_dask(self._data):
+            self._data = self._data.compute()
+        return self
+
+    def persist(self):
+        return self
+
+    def chunk(self, chunks=None, **kw):
+        from . import symda
+        if _is_dask(self._data):
+            return self._replace(self._data.rechunk(chunks if chunks is not None else kw))
+        spec = chunks if chunks is not None else kw
+        shp = self.shape
+        if isinstance(spec, dict):
+            spec = tuple(spec.get(d, shp[i]) for i, d in enumerate(self.dims))
+        if isinstance(spec, int):
+            spec = (spec,) * len(shp)
+        grid = []
+        for n, c in zip(shp, spec):
+            if isinstance(c, (tuple, list)):
+                grid.append(tuple(c))
+            else:
+                c = n if c in (-1, None) else int(c)
+                grid.append(tuple([c] * (n // c) + ([n % c] if n % c else [])))
+        return self._replace(symda.Array(self._data, tuple(grid)))
+
+    def get_axis_num(self, dim):
+        return self.dims.index(dim)
+
+    def squeeze(self, dim=None, drop=False, **kw):
+        keep = [i for i, (d, n) in enumerate(zip(self.dims, self.shape)) if not (n == 1 and (dim is None or d == dim or (isinstance(dim, (list, tuple)) and d in dim)))]
+        data = self.values.reshape(tuple(self.shape[i] for i in keep))
+        return self._replace(data, dims=tuple(self.dims[i] for i in keep))
+
+    def expand_dims(self, dim=None, axis=0, **kw):
+        data = self.values
+        shp = list(data.shape)
+        shp.insert(axis, 1)
+        dims = list(self.dims)
+        dims.insert(axis, dim)
+        return self._replace(data.reshape(tuple(shp)), dims=tuple(dims))
+
+    def drop_vars(self, names, **kw):
+        names = [names] if isinstance(names, str) else list(names)
+        out = self._replace(self._data)
+        for n in names:
+            out.coords.pop(n, None)
+        return out
+
+    def reset_coords(self, names=None, drop=False):
+        if not drop:
+            raise sc.ShimMissing("reset_coords(drop=False)")
+        out = self._replace(self._data)
+        for k in list(out.coords):
+            if k not in out.dims and (names is None or k in ([names] if isinstance(names, str) else names)):
+                out.coords.pop(k)
+        return out
+
+    def identical(self, o):
+        return self.equals(o) and self.name == o.name and self.attrs == o.attrs and list(self.coords) == list(o.coords)
 
     def where(self, cond, other=float('nan')):
         c = cond.data if isinstance(cond, DataArray) else cond
@@ -524,6 +619,25 @@ class _Labels:
 
     def tolist(self):
         return list(self.labels)
+
+
+def zeros_like(other, dtype=None):
+    return other._replace(symnp.zeros_like(other.values, dtype=dtype) if dtype else symnp.zeros_like(other.values))
+
+
+def ones_like(other, dtype=None):
+    return other._replace(symnp.ones_like(other.values, dtype=dtype) if dtype else symnp.ones_like(other.values))
+
+
+def full_like(other, fill_value, dtype=None):
+    return other._replace(symnp.full_like(other.values, fill_value, dtype=dtype) if dtype else symnp.full_like(other.values, fill_value))
+
+
+def where(cond, x, y):
+    ref = next((o for o in (cond, x, y) if isinstance(o, DataArray)), None)
+    c, a, b = (o.values if isinstance(o, DataArray) else o for o in (cond, x, y))
+    r = symnp.where(c, a, b)
+    return ref._replace(r) if ref is not None else r
 
 
 def concat(objs, dim=None, **kw):
